@@ -86,7 +86,7 @@ func (n *PipeNet) DialRPC(addr, password string) (rpc.Client, error) {
 // SimNet: a connection-level network between named nodes with faults. Every
 // connection is an in-memory pipe whose two ends know which nodes they join;
 // a pair of nodes can be cut (connections die, dials are refused), delayed
-// (every write waits) or stalled once; a node can be isolated (process gone).
+// (every write waits) or stalled for a while (nothing is carried until the stall runs out); a node can be isolated (process gone).
 
 type SimNet struct {
 	mu        sync.Mutex
@@ -94,14 +94,14 @@ type SimNet struct {
 	conns     map[*simConn]bool
 	cut       map[string]bool
 	delay     map[string]time.Duration
-	stall     map[string]time.Duration
+	stall     map[string]time.Time // the link carries nothing until this instant
 	owners    map[interface{}]string // dialing server -> node name
 	last      time.Time              // last write on any connection
 	onFault   func(kind string)
 }
 
 func NewSimNet(onFault func(string)) *SimNet {
-	return &SimNet{listeners: map[string]*pipeListener{}, conns: map[*simConn]bool{}, cut: map[string]bool{}, delay: map[string]time.Duration{}, stall: map[string]time.Duration{}, owners: map[interface{}]string{}, onFault: onFault}
+	return &SimNet{listeners: map[string]*pipeListener{}, conns: map[*simConn]bool{}, cut: map[string]bool{}, delay: map[string]time.Duration{}, stall: map[string]time.Time{}, owners: map[interface{}]string{}, onFault: onFault}
 }
 
 func pairKey(a, b string) string {
@@ -180,11 +180,12 @@ func (c *simConn) pump() {
 			n := c.n
 			n.mu.Lock()
 			k := pairKey(c.from, c.to)
-			d, st := n.delay[k], n.stall[k]
+			d, st := n.delay[k], time.Until(n.stall[k])
 			delete(n.stall, k)
 			n.last = time.Now()
 			n.mu.Unlock()
 			if st > 0 {
+				// (a stall that ran out before anything was sent delays nothing)
 				n.onFault("fault.link.stall")
 				time.Sleep(st)
 			}
@@ -305,7 +306,7 @@ func (n *SimNet) SetDelay(a, b string, d time.Duration) {
 
 func (n *SimNet) Stall(a, b string, d time.Duration) {
 	n.mu.Lock()
-	n.stall[pairKey(a, b)] = d
+	n.stall[pairKey(a, b)] = time.Now().Add(d)
 	n.mu.Unlock()
 }
 
